@@ -551,6 +551,9 @@ func (r *Reader) ReadMessage(codec Codec) (messageInstance any, err error) {
 		}
 	} else {
 		// 外部消息反序列化
+		if codec == nil {
+			return nil, ErrCodecNotConfigured
+		}
 		messageInstance, err = codec.Decode(messageData)
 		if err != nil {
 			return
